@@ -28,6 +28,7 @@ RULE = (
     "branch 10^4 draws per configuration; aliasing histories (the same list objects re-used across calls and edited in place "
     "between them, each call compared with the same call on fresh copies). Contracts run on every call. distinct_nontrivial = distinct configurations "
     "with n >= 2 and a zero weight, a cum_weights form, a malformed combination or a golden boundary id."
+    ' Added later: shares rescaled to 1e300 / 2^900, subnormal totals (a member of positive weight, no IndexError), double faults judged by what random.choices raises, malformed arguments in the id-less branch, padded ids, pair-shaped populations, every eighth configuration under a 3-digit decimal context.'
 )
 ASSUMPTIONS = [
     "icontract 2.7.3 (installed offline into /verif/.deps) evaluates pre/postconditions and snapshots in the calling thread",
